@@ -389,6 +389,17 @@ class Interp:
                 return TOP
         return TOP
 
+    def agg_const(self, g):
+        fields = []
+        for f in g["fields"]:
+            if "agg" in f:
+                fields.append(self.agg_const(f["agg"]))
+            else:
+                fields.append(self.const_val(f))
+        if g.get("is_enum"):
+            return En({g.get("vi", 0): tuple(fields)})
+        return Agg(fields)
+
     def const_val(self, k):
         if "fn" in k:
             f = k["fn"]
@@ -401,6 +412,11 @@ class Interp:
             if ty in D.INT_TYPES:
                 return k["v"]
             return self.scalar_to_value(ty, k["v"])
+        if "agg" in k:
+            val = self.agg_const(k["agg"])
+            if ty.startswith("&"):
+                return ("constref", val)
+            return val
         if "str" in k:
             return Str(k["str"])
         if "zst" in k:
